@@ -214,7 +214,7 @@ class BatchModel(Model):
         n = COUNTERS.get(self.sig, 0)
         COUNTERS[self.sig] = n + 1
         self.rep = n
-        self.entry = {"sig": self.sig, "ticks": [], "completed_at": None, "index": len(LEDGER)}
+        self.entry = {"sig": self.sig, "ticks": [], "completed_at": None, "index": len(LEDGER), "kworder": list(params)}
         LEDGER.append(self.entry)
         f = CONFIG.get("fail")
         self.fail_me = False
